@@ -57,8 +57,8 @@ def _rerun_unstable(run):
 
 CHECK = {
     "suites": [
-        suite("consensus", "c17", 36, 240, stdin=True, args=["-suite", "consensus"], timeout={"quick": 600, "thorough": 1500}),
-        suite("cluster", "c17", 6, 100, stdin=True, args=["-suite", "cluster"], timeout={"quick": 600, "thorough": 2400}),
+        suite("consensus", "c17", 28, 240, stdin=True, args=["-suite", "consensus"], timeout={"quick": 600, "thorough": 1500}),
+        suite("cluster", "c17", 5, 100, stdin=True, args=["-suite", "cluster"], timeout={"quick": 600, "thorough": 2400}),
     ],
     "gen": [{"pkg": "extract_c17", "out": "lean/ClusterVerif/Gen/C17.lean"}],
     "extra": [_rerun_unstable],
@@ -67,8 +67,9 @@ CHECK = {
                      "ClusterVerif/Gen/C17.lean", "ClusterVerif/Model/Pin.lean"],
     "rule": "consensus suite: scripts of 4-14 steps over 1-4 real raft.Consensus peers on loopback (bootstrap of 1-3 peers; pin/unpin, "
             "start+add+ready of a staging peer, add of a present peer, removal of an absent / other / own / leader / last peer, restart, "
-            "shutdown+Clean of a removed peer, a non-voting server through the hook with WaitForSync), issued at leaders and followers; "
-            "cluster suite (6 scripts quick, 100 thorough): full Cluster peers (Join, PeerAdd, PeerRemove with and without re-pinning, leave on shutdown, restart). "
+            "shutdown+Clean of a removed peer, a non-voting server through the hook with WaitForSync, the same peer re-added and re-removed "
+            "on the same data folder more often than backups_rotate (1-2) with snapshots forced), issued at leaders and followers; "
+            "cluster suite (5 scripts quick, 100 thorough): full Cluster peers (Join, PeerAdd, PeerRemove with and without re-pinning, leave on shutdown, restart). "
             "One case per observation point (script so far => what every running peer reports once all caught up); non-trivial = the script "
             "contains a membership step; distinct by case line",
     "trusted_base": ["hashicorp/raft 1.1.1 and go-libp2p-raft: log agreement, configuration changes, snapshots (the model assumes one log whose prefixes members hold)",
@@ -77,6 +78,7 @@ CHECK = {
                      "go/ast skeleton extractor (harness/extract_c17) for the statement order of the anchored functions"],
     "assumptions": ["scripts are sequential: a step starts after the previous one returned and all members caught up",
                     "steps are issued only while a quorum of voters is running (otherwise the harness reports the script inconclusive)",
+                    "the Raft data folder is observed after Clean: no raft.db, no snapshot; rotated copies are counted next to it",
                     "pins in scripts carry no origins (not decodable from the Raft log: recorded finding K01 of C08/C01)"],
 }
 META = {
@@ -85,8 +87,9 @@ META = {
             "replicated log with configuration entries: members at the same index report the same peerset, a successful add/remove puts/removes exactly "
             "that peer, present-add and absent-remove append nothing (even under lost replies and retries), the last peer and the last voter are never "
             "removed, a peer that WaitForSync calls ready has applied every entry logged before its own addition, a removed peer shuts down and cleans "
-            "after stopping consensus, a peer that could not leave keeps its data, re-pins precede RmPeer; and (allowed_holds, no proviso): every script outcome "
-            "the model allows satisfies every clause of the property written from its text. The model is tied to the code by running seeded scripts on real Raft peers (and full clusters) and comparing outcomes, peersets "
+            "after stopping consensus, a peer that could not leave keeps its data, Clean empties the data folder after every removal in any history of re-adding the same peer "
+            "(backup rotation, with or without a trailing slash in data_folder), re-pins precede RmPeer; and (allowed_holds, no proviso): every script "
+            "outcome the model allows satisfies every clause of the property written from its text. The model is tied to the code by running seeded scripts on real Raft peers (and full clusters) and comparing outcomes, peersets "
             "and pinsets of every member with the model, by evaluating the Lean property clauses on the implementation's own outputs, and by a go/ast "
             "skeleton of the anchored functions over which the guard/ordering facts are re-checked by `decide`.",
     "note": "Partial by nature: agreement is hashicorp/raft's (trusted). Trusted: Lean kernel, hand-written model/spec, harness, hook file "
